@@ -63,6 +63,14 @@ pub fn alphabet() -> Vec<St> {
     for (li, l) in ASSIGN_LITS.iter().enumerate() { v.push(St { text: format!("{} = {}", n, l), k: K::AssignLit(li), targets: vec![n], reads: vec![], tmpl: "assign-literal" }); }
   }
   for (n, m) in [("a", "b"), ("b", "a"), ("a", "c")] { v.push(St { text: format!("{} = {}", n, m), k: K::AssignName, targets: vec![n], reads: vec![m], tmpl: "assign-name" }); }
+  // op-assignment whose right-hand side is another variable (all four operators; the source must stay as it is)
+  for (n, m) in [("a", "b"), ("b", "a"), ("a", "c")] {
+    for (op, t) in [("+=", "op-assign-name(+=)"), ("-=", "op-assign-name(-=)"), ("*=", "op-assign-name(*=)"), ("/=", "op-assign-name(/=)")] {
+      v.push(St { text: format!("{} {} {}", n, op, m), k: K::OpAssign, targets: vec![n], reads: vec![m], tmpl: t });
+    }
+    v.push(St { text: format!("{}[1] *= {}", n, m), k: K::OpAssign, targets: vec![n], reads: vec![m], tmpl: "index-op-assign-name(*=)" });
+  }
+  for n in ["a", "b"] { for (op, t) in [("-=", "op-assign(-=)"), ("*=", "op-assign(*=)"), ("/=", "op-assign(/=)")] { v.push(St { text: format!("{} {} 2", n, op), k: K::OpAssign, targets: vec![n], reads: vec![], tmpl: t }); } }
   v.push(St { text: "zz = 4".into(), k: K::AssignUndefined, targets: vec![], reads: vec![], tmpl: "assign-undefined" });
   for n in ["a", "b"] {
     v.push(St { text: format!("{}[2] = 9", n), k: K::IndexAssign, targets: vec![n], reads: vec![], tmpl: "index-assign" });
@@ -239,19 +247,19 @@ impl UnitRunner for C05 {
             }
             K::AssignUndefined => (true, false, vec![]),
             K::FnDef | K::BareCall => (false, false, vec![]),
-            K::IndexAssign | K::OpAssign | K::FieldAssign => { let n = st.targets[0]; (!defined(n) || !mutable(n), false, vec![(n.to_string(), None, None)]) }
+            K::IndexAssign | K::OpAssign | K::FieldAssign => { let n = st.targets[0]; (!defined(n) || !mutable(n) || !reads_ok, false, vec![(n.to_string(), None, None)]) }
             K::DestructLit(arity) => {
               let any_def = st.targets.iter().any(|n| defined(n));
               let bad = any_def || st.targets.len() != *arity;
               let vals = [Canon::Num("f64".into(), "1.0".into()), Canon::Num("f64".into(), "2.0".into())];
-              (bad, !bad, st.targets.iter().enumerate().map(|(i, n)| (n.to_string(), vals.get(i).cloned(), None)).collect())
+              (bad, !bad, st.targets.iter().enumerate().map(|(i, n)| (n.to_string(), vals.get(i).cloned(), Some(false))).collect())
             }
             K::DestructName => {
               let any_def = st.targets.iter().any(|n| defined(n));
               let src = get(&pre.snap, st.reads[0]).map(|x| x.2.clone());
               let (ok_tuple, vals) = match &src { Some(Canon::Tuple(v)) if v.len() == st.targets.len() => (true, v.clone()), _ => (false, vec![]) };
               let bad = any_def || !reads_ok || !ok_tuple;
-              (bad, !bad, st.targets.iter().enumerate().map(|(i, n)| (n.to_string(), vals.get(i).cloned(), None)).collect())
+              (bad, !bad, st.targets.iter().enumerate().map(|(i, n)| (n.to_string(), vals.get(i).cloned(), Some(false))).collect())
             }
           };
           // ---- judge
